@@ -110,11 +110,15 @@ def build_harness(ctx):
 
 def sany_all(ctx):
     bad = []
+    jtmp = os.path.join(ctx.work, 'sany_tmp_%d' % os.getpid())     # SANY unpacks the standard modules into the JVM temporary directory
+    os.makedirs(jtmp, exist_ok=True)
+    env = dict(os.environ, JAVA_TOOL_OPTIONS='-Djava.io.tmpdir=%s' % jtmp)
     for f in sorted(glob.glob(os.path.join(ctx.spec, '*.tla'))):
         p = subprocess.run(['tla-sany', os.path.basename(f)], cwd=ctx.spec, stdout=subprocess.PIPE,
-                           stderr=subprocess.STDOUT, text=True)
+                           stderr=subprocess.STDOUT, text=True, env=env)
         if p.returncode != 0 or 'Semantic errors' in p.stdout or 'Parsing or semantic analysis failed' in p.stdout or '***Parse Error***' in p.stdout:
             bad.append((f, p.stdout[-1500:]))
+    shutil.rmtree(jtmp, ignore_errors=True)
     return bad
 
 
